@@ -85,6 +85,18 @@ CLAIMED.update({
         note="Partial by design: header-only parsers ride along as workload. Requests the stdlib rejects before werkzeug code runs are outside the property. Known finding P4 (URL attributes with a malformed Host) is recorded.",
         technique="deterministic simulation of the body-dependent attributes (fragmenting, truncating, failing input stream; wire level through the real handler) + seeded hostile-value workload for the pure parsers",
     ),
+    "C05": dict(
+        category="exploration",
+        text="An application actor builds a real Response through a generated history (eleven body shapes incl. generator, closable iterator and FileWrapper in direct passthrough; status as int / "
+        "HTTPStatus / string; headers as list / dict / Headers; 18 header mutators with and without CR/LF; preset Content-Length; Location forms with autocorrect on/off; close callbacks; "
+        "make_sequence / get_data before serving). A server actor then calls get_wsgi_response for GET/HEAD/POST, iterates the iterable as far as the schedule says - every abort point is "
+        "swept for a third of the cases, the body iterator may raise - and calls close() once. Monitors after every mutator (stored values are CR/LF-free str; storing a CR/LF value raised "
+        "ValueError) and history checks (native-string headers, ASCII Location, computed Content-Length equals bytes produced, no body for HEAD/1xx/204/304, no Content-Length for 1xx/204, every "
+        "callback and the wrapped iterable's close ran exactly once). ClosingIterator is additionally driven directly.",
+        design_ref="3.3",
+        note="Known finding R1 (direct passthrough skips close callbacks) is recorded. Response.freeze()/set_data() replacing the body are outside the property's stated domain and are not generated.",
+        technique="deterministic simulation: application mutator histories x server abort-point sweep (crash points) with counting close spies and per-step monitors",
+    ),
 })
 
 NOT_APPLICABLE = {
